@@ -119,3 +119,17 @@ def register(reg):
         loops={0: {"inv": ["forall_s(lambda x: (x in header_keys) == exists(0, _i, lambda j: headers_sent[j][0].lower() == x))"],
                    "modifies": ["self.hdr"], "types": {"header_keys": "Set[str]"}}},
     )
+
+    # ---- start_response: what the application announces is what will be sent; a second announcement is only
+    # accepted together with exc_info (and then only while nothing has been sent)
+    reg.contract(
+        "werkzeug/serving.py:WSGIRequestHandler.run_wsgi.start_response", prop=P,
+        params={"status": "str", "headers": "List[Tuple[str, str]]", "exc_info": "none"},
+        closure={"status_set": "Optional[str]", "headers_set": "Optional[List[Tuple[str, str]]]",
+                 "headers_sent": "Optional[List[Tuple[str, str]]]", "write": "opaque:callback"},
+        modifies=["status_set", "headers_set"], raise_modifies=[],
+        ensures=["status_set == status", "headers_set == headers", "result == write"],
+        # without exc_info a response may be started only once (an empty header list counts as "not started":
+        # the code tests truthiness)
+        raises={"AssertionError": "old(headers_set) is not None and len(old(headers_set)) > 0"},
+    )
